@@ -56,6 +56,11 @@ pub enum AdapterKind {
     InSpanEnterOnPoll,
     Stream,
     Sink,
+    /// an inner object that is both a stream and a sink (a duplex transport), wrapped once
+    /// through `StreamExt::in_span`
+    DuplexViaStream,
+    /// the same inner object wrapped through `SinkExt::in_span`
+    DuplexViaSink,
 }
 
 #[derive(Clone, Copy, Debug, Serialize, Deserialize, PartialEq)]
@@ -113,6 +118,8 @@ pub enum Op {
     Bulk { n: u16 },
     /// `n` whole traces in a row on this thread: root created and finished (2 forced/plain commands each)
     Volley { n: u16 },
+    /// `n` more local spans/events/props in the current scope (far below the scope limit)
+    Many { n: u8, kind: u8 },
     /// scope-limit episode: n local spans/events/props in the current scope
     Burst { n: u16, kind: u8 },
     /// nest `n` local-parent scopes / collectors (popped by the normaliser)
@@ -138,6 +145,14 @@ pub struct Program {
     /// only before a queue and when it finds one empty)
     #[serde(default)]
     pub fine: bool,
+    /// op-granularity engine: this many extra threads use tracing once before the case starts and
+    /// stay alive until it ends (a server's worker pool: many registered command queues)
+    #[serde(default)]
+    pub pool: u8,
+    /// sched engine: vthreads register their command queue with their first command instead of
+    /// at birth, and may be born while a collector cycle is in progress
+    #[serde(default)]
+    pub lazy_reg: bool,
 }
 
 /// Op kinds, used as weight indices.
@@ -174,6 +189,7 @@ pub enum K {
     Fill,
     Bulk,
     Volley,
+    Many,
     Burst,
     Nest,
     Churn,
@@ -204,6 +220,8 @@ pub struct Profile {
     pub unique_traces: bool,
     /// directed templates mixed with free generation: (weight out of 10, template)
     pub templates: Vec<(u32, Template)>,
+    /// share (in percent) of programs that run beside a pool of 33-40 registered threads
+    pub pool_pct: u32,
 }
 
 #[derive(Clone, Copy, Debug, PartialEq)]
@@ -223,6 +241,16 @@ pub enum Template {
     FullExit,
     /// more forced commands parked behind a full ring than the ring itself holds
     ParkedBacklog,
+    /// a vthread's ring is full when it starts a trace; the ring is drained; then spans of that
+    /// trace finish on this and on other vthreads whose queues have room
+    FullThenTrace,
+    /// beside a pool of registered threads: a short-lived vthread attaches to another vthread's
+    /// span and exits, a vthread born afterwards makes its first tracing call, then the target
+    /// finishes
+    PoolHandoff,
+    /// a scope with open local spans is filled to (or just short of) its limit; local spans,
+    /// events and properties follow while it is full, then everything unwinds
+    ScopeFull,
 }
 
 impl Profile {
@@ -257,6 +285,7 @@ impl Profile {
             max_spin_us: 0,
             unique_traces: false,
             templates: vec![],
+            pool_pct: 0,
         }
     }
     pub fn set(mut self, ks: &[(K, u32)]) -> Self {
@@ -436,6 +465,7 @@ pub fn op_strategy(p: &Profile) -> BoxedStrategy<Op> {
     add(K::Fill, (0u8..4).prop_map(|leave| Op::Fill { leave }).boxed());
     add(K::Bulk, prop_oneof![2 => 100u16..9500, 2 => 4000u16..4200, 1 => 8100u16..8300].prop_map(|n| Op::Bulk { n }).boxed());
     add(K::Volley, prop_oneof![2 => 1u16..8, 3 => 60u16..110, 2 => 250u16..262].prop_map(|n| Op::Volley { n }).boxed());
+    add(K::Many, (prop_oneof![1 => 20u8..60, 3 => 60u8..140, 1 => 140u8..255], 0u8..3).prop_map(|(n, kind)| Op::Many { n, kind }).boxed());
     add(
         K::Burst,
         (0u16..60, 0u8..3).prop_map(|(n, kind)| Op::Burst { n, kind }).boxed(),
@@ -486,7 +516,7 @@ fn template_strategy(p: &Profile, t: Template) -> BoxedStrategy<Program> {
                 t0.push(Op::Finish { span: 0 });
                 t0.push(Op::Flush);
                 t0.extend(post);
-                Program { cancelable, threads: vec![t0, other], cycles, schedule, fine: false }
+                Program { cancelable, threads: vec![t0, other], cycles, schedule, fine: false, pool: 0, lazy_reg: false }
             })
             .boxed(),
         Template::Forest => (
@@ -502,15 +532,25 @@ fn template_strategy(p: &Profile, t: Template) -> BoxedStrategy<Program> {
             ),
             0usize..4,
             proptest::collection::vec(any::<u16>(), 1..6),
-            any::<bool>(),
+            0u8..16,
             proptest::collection::vec(op.clone(), 0..5),
             0u8..3,
             sched,
         )
-            .prop_map(move |(cancelable, forest, open_at_collect, pushes, multi, tail, cycles, schedule)| {
-                let mut t0 = vec![root.clone(), root.clone(), Op::Child { parents: vec![0], np: 0, s: StrSeed { c: 0, l: 1 } }];
+            .prop_map(move |(cancelable, forest, open_at_collect, pushes, shape, tail, cycles, schedule)| {
+                // shape: bit 0 = a two-parent span is among the targets; bits 1-2 = which of the two
+                // roots belongs to an unsampled trace (1: the first, 2: the second, else none);
+                // bit 3 = order of the two-parent span's parents
+                let multi = shape & 1 == 1;
+                let unsampled = (shape >> 1) & 3;
+                let mk_root = |sampled: bool| match &root {
+                    Op::Root { tc, tr, pc, pr, np, s, .. } => Op::Root { tc: *tc, tr: *tr, pc: *pc, pr: *pr, sampled, np: *np, s: *s },
+                    _ => unreachable!(),
+                };
+                let mut t0 = vec![mk_root(unsampled != 1), mk_root(unsampled != 2), Op::Child { parents: vec![0], np: 0, s: StrSeed { c: 0, l: 1 } }];
                 if multi {
-                    t0.push(Op::Child { parents: vec![0, 30000], np: 0, s: StrSeed { c: 0, l: 2 } });
+                    let parents = if shape & 8 == 0 { vec![0, 30000] } else { vec![30000, 0] };
+                    t0.push(Op::Child { parents, np: 0, s: StrSeed { c: 0, l: 2 } });
                 }
                 // "late parents": children of two traces whose roots are finished and reported
                 // before the set is pushed to the (still live) children
@@ -549,7 +589,7 @@ fn template_strategy(p: &Profile, t: Template) -> BoxedStrategy<Program> {
                 }
                 t1.push(Op::ToSpanRecords { set: 0, tc: 1, tr: 77, pr: 99 });
                 t1.extend(tail);
-                Program { cancelable, threads: vec![t0, t1], cycles, schedule, fine: false }
+                Program { cancelable, threads: vec![t0, t1], cycles, schedule, fine: false, pool: 0, lazy_reg: false }
             })
             .boxed(),
         Template::FanIn => (canc, 1usize..4, proptest::collection::vec(op.clone(), 0..3), proptest::collection::vec(op.clone(), 0..3), 1u8..6, sched)
@@ -565,7 +605,7 @@ fn template_strategy(p: &Profile, t: Template) -> BoxedStrategy<Program> {
                 }
                 t1.extend(b);
                 let t2 = vec![Op::Flush, Op::Finish { span: 0 }];
-                Program { cancelable, threads: vec![t0, t1, t2], cycles, schedule, fine: false }
+                Program { cancelable, threads: vec![t0, t1, t2], cycles, schedule, fine: false, pool: 0, lazy_reg: false }
             })
             .boxed(),
         Template::Extract => (canc, proptest::collection::vec(op.clone(), 0..6), any::<bool>(), any::<bool>(), 0u8..3, sched)
@@ -586,7 +626,118 @@ fn template_strategy(p: &Profile, t: Template) -> BoxedStrategy<Program> {
                 t0.push(Op::CtxOfLocal);
                 t0.push(Op::RootFromCtx { ctx: 65535, via_tp, s: StrSeed { c: 0, l: 3 } });
                 t0.extend(tail);
-                Program { cancelable, threads: vec![t0], cycles, schedule, fine: false }
+                Program { cancelable, threads: vec![t0], cycles, schedule, fine: false, pool: 0, lazy_reg: false }
+            })
+            .boxed(),
+        Template::FullThenTrace => (
+            canc,
+            0u8..2,
+            proptest::collection::vec(op.clone(), 0..3),
+            proptest::collection::vec(op.clone(), 0..4),
+            proptest::collection::vec(op.clone(), 0..5),
+            any::<bool>(),
+            any::<bool>(),
+            2u8..6,
+            sched,
+        )
+            .prop_map(move |(cancelable, leave, pre, mid, other, flush_between, local, cycles, schedule)| {
+                let mut t0 = pre;
+                t0.retain(|o| !matches!(o, Op::Fill { .. } | Op::Exit));
+                t0.push(Op::Fill { leave });
+                // the trace starts while the queue is full
+                t0.push(root.clone());
+                t0.push(Op::Child { parents: vec![65535], np: 0, s: StrSeed { c: 0, l: 1 } });
+                if flush_between {
+                    t0.push(Op::Flush);
+                }
+                t0.extend(mid);
+                if local {
+                    t0.push(Op::SetLocalParent { span: 65535, probe: false });
+                    t0.push(Op::EnterLocal { np: 0, s: StrSeed { c: 0, l: 1 }, probe: false });
+                    t0.push(Op::PopGuard { collect: false, early: false, unwind: false });
+                    t0.push(Op::PopGuard { collect: false, early: false, unwind: false });
+                }
+                t0.push(Op::Finish { span: 65535 });
+                let mut t1 = vec![Op::Child { parents: vec![65535], np: 0, s: StrSeed { c: 0, l: 1 } }, Op::Finish { span: 65535 }];
+                t1.extend(other);
+                Program { cancelable, threads: vec![t0, t1], cycles, schedule, fine: false, pool: 0, lazy_reg: false }
+            })
+            .boxed(),
+        Template::PoolHandoff => (
+            canc,
+            33u8..41,
+            proptest::collection::vec(
+                prop_oneof![
+                    3 => (1u8..3, strseed(p.str_classes)).prop_map(|(n, s)| Op::AddProps { handle: Some(0), n, s, re: vec![] }),
+                    3 => (0u8..3, strseed(p.str_classes)).prop_map(|(n, s)| Op::AddEvent { handle: Some(0), n, s, re: vec![] }),
+                    1 => (0u8..2, strseed(p.str_classes)).prop_map(|(np, s)| Op::Child { parents: vec![0], np, s }),
+                    1 => Just(Op::Finish { span: 65535 }),
+                ],
+                1..5,
+            ),
+            any::<bool>(),
+            proptest::collection::vec(op.clone(), 0..3),
+            proptest::collection::vec(op.clone(), 0..3),
+        )
+            .prop_map(move |(cancelable, pool, attach, via_local, newcomer, tail)| {
+                let t0 = {
+                    let mut t = vec![root.clone()];
+                    t.extend(tail);
+                    t.push(Op::Finish { span: 0 });
+                    t.push(Op::Flush);
+                    t
+                };
+                let mut t1 = vec![];
+                if via_local {
+                    t1.push(Op::SetLocalParent { span: 0, probe: false });
+                    t1.push(Op::AddEvent { handle: None, n: 1, s: StrSeed { c: 0, l: 1 }, re: vec![] });
+                    t1.push(Op::AddProps { handle: None, n: 1, s: StrSeed { c: 0, l: 1 }, re: vec![] });
+                    t1.push(Op::PopGuard { collect: false, early: false, unwind: false });
+                }
+                t1.extend(attach);
+                t1.push(Op::Exit);
+                let mut t2 = vec![Op::Root { tc: 0, tr: 1, pc: 0, pr: 0, sampled: true, np: 0, s: StrSeed { c: 0, l: 1 } }];
+                t2.extend(newcomer);
+                // t0 creates the root; t1 runs to its exit; t2 (a new thread) runs; t0 finishes and flushes
+                let schedule = vec![(0u8, 1u8), (86, 255), (128, 255)];
+                Program { cancelable, threads: vec![t0, t1, t2], cycles: 0, schedule, fine: false, pool, lazy_reg: false }
+            })
+            .boxed(),
+        Template::ScopeFull => (
+            canc,
+            any::<bool>(),
+            0usize..4,
+            prop_oneof![3 => 25u16..60, 1 => 0u16..25],
+            0u8..3,
+            proptest::collection::vec(
+                prop_oneof![
+                    5 => (0u8..3, strseed(p.str_classes)).prop_map(|(np, s)| Op::EnterLocal { np, s, probe: false }),
+                    3 => Just(Op::PopGuard { collect: true, early: false, unwind: false }),
+                    3 => (0u8..3, strseed(p.str_classes)).prop_map(|(n, s)| Op::AddEvent { handle: None, n, s, re: vec![] }),
+                    4 => (1u8..3, strseed(p.str_classes)).prop_map(|(n, s)| Op::AddProps { handle: None, n, s, re: vec![] }),
+                    1 => (0u8..2, strseed(p.str_classes)).prop_map(|(np, s)| Op::ChildOfLocal { np, s }),
+                    1 => Just(Op::CtxOfLocal),
+                ],
+                1..9,
+            ),
+            proptest::collection::vec(op.clone(), 0..4),
+            0u8..3,
+            sched,
+        )
+            .prop_map(move |(cancelable, collector, open_before, n, kind, during, tail, cycles, schedule)| {
+                let mut t0 = vec![root.clone()];
+                if collector {
+                    t0.push(Op::CollectorStart { probe: false });
+                } else {
+                    t0.push(Op::SetLocalParent { span: 0, probe: false });
+                }
+                for i in 0..open_before {
+                    t0.push(Op::EnterLocal { np: (i % 2) as u8, s: StrSeed { c: 0, l: 1 }, probe: false });
+                }
+                t0.push(Op::Burst { n, kind });
+                t0.extend(during);
+                t0.extend(tail);
+                Program { cancelable, threads: vec![t0], cycles, schedule, fine: false, pool: 0, lazy_reg: false }
             })
             .boxed(),
         Template::ParkedBacklog => (canc, proptest::collection::vec(op.clone(), 0..3), proptest::collection::vec(op.clone(), 0..5), 10250u16..10400, 1u8..4, sched)
@@ -595,7 +746,7 @@ fn template_strategy(p: &Profile, t: Template) -> BoxedStrategy<Program> {
                 t0.retain(|o| !matches!(o, Op::Fill { .. } | Op::Volley { .. } | Op::Exit));
                 t0.push(Op::Fill { leave: 0 });
                 t0.push(Op::Volley { n });
-                Program { cancelable, threads: vec![t0, t1], cycles, schedule, fine: false }
+                Program { cancelable, threads: vec![t0, t1], cycles, schedule, fine: false, pool: 0, lazy_reg: false }
             })
             .boxed(),
         Template::FullExit => (canc, proptest::collection::vec(op.clone(), 0..4), proptest::collection::vec(op.clone(), 0..6), proptest::collection::vec(op.clone(), 0..6), 0u8..2, 1u8..6, sched)
@@ -606,7 +757,7 @@ fn template_strategy(p: &Profile, t: Template) -> BoxedStrategy<Program> {
                 t0.retain(|o| !matches!(o, Op::Fill { .. } | Op::Volley { .. } | Op::Exit));
                 t0.push(Op::Fill { leave });
                 t0.push(Op::Exit);
-                Program { cancelable, threads: vec![t0, t1, t2], cycles, schedule, fine: false }
+                Program { cancelable, threads: vec![t0, t1, t2], cycles, schedule, fine: false, pool: 0, lazy_reg: false }
             })
             .boxed(),
         Template::CrossQueue => (canc, any::<bool>(), proptest::collection::vec(op.clone(), 0..4), proptest::collection::vec(op, 0..4), 1u8..5, sched)
@@ -619,16 +770,21 @@ fn template_strategy(p: &Profile, t: Template) -> BoxedStrategy<Program> {
                 }
                 t1.push(Op::Finish { span: 0 });
                 t1.extend(b);
-                Program { cancelable, threads: vec![t0, t1], cycles, schedule, fine: false }
+                Program { cancelable, threads: vec![t0, t1], cycles, schedule, fine: false, pool: 0, lazy_reg: false }
             })
             .boxed(),
     }
 }
 
 pub fn program_strategy(p: &Profile) -> BoxedStrategy<Program> {
-    (program_strategy_inner(p), proptest::bool::weighted(0.3))
-        .prop_map(|(mut prog, fine)| {
+    let pool_pct = p.pool_pct;
+    (program_strategy_inner(p), proptest::bool::weighted(0.3), 0u32..100, 33u8..41, proptest::bool::weighted(0.35))
+        .prop_map(move |(mut prog, fine, roll, pool, lazy_reg)| {
             prog.fine = fine;
+            prog.lazy_reg = lazy_reg;
+            if roll < pool_pct && prog.pool == 0 {
+                prog.pool = pool;
+            }
             prog
         })
         .boxed()
@@ -667,6 +823,8 @@ fn program_strategy_inner(p: &Profile) -> BoxedStrategy<Program> {
             cycles,
             schedule,
             fine: false,
+            pool: 0,
+            lazy_reg: false,
         })
         .boxed()
 }
